@@ -19,10 +19,10 @@ Agree(c, run) ==
             ELSE [i \in 1..Len(m.lines) |-> Plain(NoFrags(m.lines[i]))] = [i \in 1..Len(run.res.lines) |-> Plain(NoFrags(run.res.lines[i]))]
 InScope(c) == "crash" \notin DOMAIN c /\ \A i \in 1..Len(c.runs) : c.runs[i].w >= 0 /\ LET d == c.doms[c.runs[i].d] IN ~(Len(d) = 1 /\ d[1].k \in {"big", "none"})
 AgreeCase(c) == \A i \in 1..Len(c.runs) : Agree(c, c.runs[i])
-Init == l = 1 /\ TLCSet(2, {}) /\ TLCSet(3, 0)
+Init == l = 0 /\ TLCSet(2, {}) /\ TLCSet(3, 0)
 Step == l <= N /\ l' = l + 1
 Spec == Init /\ [][Step]_l
 Check == /\ TLCSet(1, l)
-         /\ (l > N \/ ~InScope(Rec[l]) \/ (TLCSet(3, TLCGet(3) + 1) /\ AgreeCase(Rec[l])) \/ TLCSet(2, TLCGet(2) \cup {l}))
+         /\ (l = 0 \/ l > N \/ ~InScope(Rec[l]) \/ (TLCSet(3, TLCGet(3) + 1) /\ AgreeCase(Rec[l])) \/ TLCSet(2, TLCGet(2) \cup {l}))
 Report == PrintT(<<"JUDGED", TLCGet(1) - 1, "INSCOPE", TLCGet(3), "BAD", TLCGet(2)>>) /\ TLCGet(1) = N + 1
 =============================================================================
